@@ -66,6 +66,12 @@ class CheckBase:
     def extra_evidence(self, stats: dict) -> dict:
         return {}
 
+    def distinct_key(self, run: Any, scn: dict) -> int | None:
+        """Hash identifying this run among the distinct non-trivial ones, or None if trivial."""
+        if nontrivial(run):
+            return trace_hash(run.history)
+        return None
+
 
 def brief(scn: dict) -> dict:
     """Short form of a scenario for evidence samples."""
@@ -192,8 +198,9 @@ def _worker(args: tuple) -> dict:
                     st["harness"].append({"idx": idx, "k": k, "errors": run.harness_errors[:3], "scenario": scn})
                     k += 1
                     continue
-                if nontrivial(run):
-                    st["hashes"].add(trace_hash(run.history))
+                key = check.distinct_key(run, scn)
+                if key is not None:
+                    st["hashes"].add(key)
                 viols = check.oracle(run, scn)
                 if hasattr(check, "note"):
                     check.note(run, scn, st["extra"])
